@@ -43,6 +43,7 @@ impl World for W6 {
                     Batch { name: "faults", quick: 300, thorough: 20_000, faulty: true },
                     Batch { name: "snapshots", quick: 150, thorough: 10_000, faulty: true },
                     Batch { name: "restarts", quick: 100, thorough: 6_000, faulty: true },
+                    Batch { name: "restarts-snapshots", quick: 150, thorough: 6_000, faulty: true },
                 ],
                 rule: "one run = a 3-node cluster of real openraft 0.9.21 nodes (varpulis' TypeConfig, MemStore or RocksStore, apply_command, NetworkFactory/NetworkClient request construction, raft_routes handlers) on a paused tokio clock for 30-90 simulated seconds, with 1-3 clients writing uniquely tagged commands at any node and following leader hints. The simulated network decides per RPC: latency 0-300 ms, slow (0.5-3 s), drop, reply loss, and a tape-drawn schedule of partitions (incl. of the current leader), node stalls and, on RocksStore nodes, crash and restart on the same directory; a third batch uses an aggressive snapshot policy so lagging followers are caught up by snapshot. Every 100 ms of simulated time: for any two nodes and any index both have applied, the state recorded at that index (by an observing wrapper around the real store) is equal; every acknowledged write is present on every node that has applied past its index; same again after heal. Non-trivial = >= 3 acknowledged writes and (in fault batches) at least one fault fired; distinct = distinct decoded-trace hash.",
                 real: vec!["openraft 0.9.21 (the real library: elections, replication, snapshots)", "varpulis MemStore / RocksStore, apply_command, TypeConfig", "raft::network::{NetworkFactory, NetworkClient} (request construction, error mapping) over the H3 stand-in for reqwest", "raft::routes::raft_routes handlers incl. auth filter, via warp::test"],
